@@ -263,6 +263,11 @@ class BlockSeries:
                     raise IndexError("Cannot evaluate infinite series")
                 if isinstance(order.start, int) and order.start < 0:
                     raise IndexError("Cannot evaluate negative order")
+                if order.stop < 0:
+                    raise IndexError("Cannot evaluate negative order")
+            elif np.any(np.asarray(order) < 0):
+                # Integers and lists of integers; numpy would wrap these around.
+                raise IndexError("Cannot evaluate negative order")
 
     def _check_number_perturbations(self, item: tuple[OneItem, ...]):
         """Check that the number of indices is correct.
